@@ -172,6 +172,9 @@ _SPICE = (b'cfg=defaults{speed=2,name="n"}', b'log"hello"', b'obj:draw{1,2}', b'
           b'a,b=b,a', b'local t={[1]=2;3,k="v",}', b'local function helper(...) return ... end', b'str=[==[ ]] ]=] ]==]',
           b't.a.b:c(1)(2)[3]="x"', b'x=1 // a C-style comment', b'y=x\\2^^3>><1', b'z=@0x5f00+%0x5f02+$0x5f04', b'x=0x1f.8+0b101.1+1e3',
           b'-- if(_update60)_update=function()', b'n=#t..""', b'f=function(a,...) local b=a end', b'do local q=1 end',
+          # text that means something to template / formatting languages means nothing here
+          b'local levels={map}', b'-- {gfx} {label} {lua} {version} {sfx} {music} {gff} {code}', b'fmt="%s %d {0} {} $x ${y} %(z)s \\\\1 \\\\g<0>"',
+          b'tpl=[[<%= x %> {{y}} #{z}]]',
           b'repeat i+=1 until i>3', b'for k,v in pairs(t) do print(k) end', b'--[[ block\tcomment ]] x=1')
 
 
